@@ -2,4 +2,5 @@ SPECIFICATION Spec
 CONSTANT Deviations <- HandlerDev
 INVARIANT TypeOK
 INVARIANT CleanExit
+INVARIANT ThreadEndsUnlessBusy
 PROPERTY Terminates
